@@ -15,6 +15,7 @@ from core import Fn, Target, VC
 import frame
 import functional
 import generators
+import learners
 
 
 def T(*a, **k):
@@ -504,7 +505,7 @@ def lint_vcs():
 def build(tier):
     gen_targets, gen_info = generators.targets(tier)
     targets = (solver_targets() + iterator_targets() + objective_targets() + loss_targets(tier) + tune_targets() + wlearner_targets()
-               + dataset_const_targets() + functional.targets() + gen_targets)
+               + dataset_const_targets() + functional.targets() + gen_targets + learners.targets())
     return {
         'targets': targets, 'vcs': [], 'bounded': lint_vcs(),
         'decided': functional.DECIDED + [
